@@ -553,7 +553,7 @@ Ops!(
     b"mb"         , [0xFE              ], 1, LOCK;
     b"rb"         , [0xFE              ], 1;
     b"m*"         , [0xFF              ], 1, AUTO_SIZE | LOCK;
-    b"r*"         , [0x48              ], 0, X86_ONLY | SHORT_ARG;
+    b"r*"         , [0x48              ], 0, X86_ONLY | AUTO_SIZE | SHORT_ARG;
     b"r*"         , [0xFF              ], 1, AUTO_SIZE ;
 ]
 "div" = [
@@ -1053,7 +1053,7 @@ Ops!(
     b"mb"         , [0xFE              ], 0, LOCK;
     b"rb"         , [0xFE              ], 0;
     b"m*"         , [0xFF              ], 0, AUTO_SIZE | LOCK;
-    b"r*"         , [0x40              ], 0, X86_ONLY | SHORT_ARG;
+    b"r*"         , [0x40              ], 0, X86_ONLY | AUTO_SIZE | SHORT_ARG;
     b"r*"         , [0xFF              ], 0, AUTO_SIZE ;
 ]
 "insb" = [
